@@ -181,10 +181,11 @@ def lean_eval(snippet, imports, timeout=900):
         os.unlink(path)
 
 
-def failing_entries(checker, biglist, imports=('PhQVerif.Checkers', 'PhQVerif.Generated.All')):
-    """Ids (with format) of the generated entries on which a Boolean checker is false."""
-    out = lean_eval('#eval (%s.filter (fun e => !(%s e))).map (fun e => (e.id, e.fm.bits))\n' % (biglist, checker),
-                    list(imports))
+def failing_entries(checker, biglist, imports=('PhQVerif.Checkers', 'PhQVerif.Generated.All'), accessor='e'):
+    """Ids (with format) of the generated entries on which a Boolean checker is false. `accessor` says how to
+    reach the entry from a list element (`e` for lists of entries, `e.1` for lists of rows led by an entry)."""
+    out = lean_eval('#eval (%s.filter (fun e => !(%s e))).map (fun e => ((%s).id, (%s).fm.bits))\n' % (
+        biglist, checker, accessor, accessor), list(imports))
     return re.findall(r'\("((?:[^"\\]|\\.)*)", (\d+)\)', out)
 
 
